@@ -20,14 +20,14 @@ META = {
     "assumptions": ["identity on the structured event array is the oracle (exact)", "region equality by behaviour: same cell index for probe points"],
     "deciding": ["roundtrip:ascii", "roundtrip:dict", "roundtrip:json", "roundtrip:dataframe"],
 }
-META["added"] = 'Added: with_datetime DataFrame route on non-chronological catalogs, catalog ids 0 and 1 always generated, exponent-notation field values (|v| < 1e-4, subnormals) also in first position, latitude-major regions. the same file path re-used by every case. negative catalog ids. origin time 0 ms.'
+META["added"] = 'Added: ids containing backslashes (inside, doubled, trailing). with_datetime DataFrame route on non-chronological catalogs, catalog ids 0 and 1 always generated, exponent-notation field values (|v| < 1e-4, subnormals) also in first position, latitude-major regions. the same file path re-used by every case. negative catalog ids. origin time 0 ms.'
 MANIFEST = {
     "technique": "boundary recorder on the eight persistence functions with exact identity oracle on the structured event array; region equality by probe behaviour; generated hostile ids / millisecond phases / extreme coordinates",
     "level_text": "Each generated catalog is pushed through the four persistence routes with the real functions; the reloaded event array must be bit-identical (ids, integer ms origin times, doubles), integer catalog ids must survive every route and name/region the dict/JSON routes (region compared by the cell index of boundary-adjacent probe points).",
     "level_note": "Trusted: numpy structured-array equality. Catalog space sampled with stratification over all millisecond phases.",
 }
 WATCHDOG_S = {"quick": 900, "thorough": 5400}
-IDPOOL = ['a,b', 'say "hi"', " lead", "trail ", "x;y", "'q'", "1234", "id with spaces", 'ci,12"3', "ev", "us7000abcd", "a\tb", "#1", "é".encode("utf-8").decode("latin-1")]
+IDPOOL = ['a\\b', 'net\\sta\\', 'c\\\\d', 'a,b', 'say "hi"', " lead", "trail ", "x;y", "'q'", "1234", "id with spaces", 'ci,12"3', "ev", "us7000abcd", "a\tb", "#1", "é".encode("utf-8").decode("latin-1")]
 LO_MS, HI_MS = -2208988800000, 7258118400000
 
 
@@ -39,8 +39,8 @@ def gen_events(r, n, j):
     ev = []
     for i in range(n):
         kind = int(r.integers(0, 4))
-        base = str(r.choice(IDPOOL[:13])) if r.uniform() < 0.5 else "ev"
-        eid = "%s%d" % (base, i) if not base.endswith(" ") else "%d%s" % (i, base)
+        base = str(r.choice(IDPOOL[:16])) if r.uniform() < 0.5 else "ev"
+        eid = "%s%d" % (base, i) if not base.endswith((" ", "\\")) else "%d%s" % (i, base)
         phase = (j * 53 + i * 7) % 1000 if kind else 0
         ms = int(r.integers(LO_MS // 1000, HI_MS // 1000)) * 1000 + phase
         if kind == 3:
@@ -103,7 +103,7 @@ def ex_catalog(ctx, ev, catalog_id=None, name=None, lat_case=None, header=True, 
     src = CSEPCatalog(data=list(ev), catalog_id=catalog_id, name=name, region=reg)
     rc = {"exec": "catalog", "args": {"ev": ev, "catalog_id": catalog_id, "name": name, "lat_case": lat_case, "header": header, "seed": seed}}
     ctx.current_case = rc
-    tags = {"empty": len(ev) == 0, "hostile_id": any(any(ch in e[0] for ch in ',"; \t\'') for e in ev), "pre1970": any(e[1] < 0 for e in ev),
+    tags = {"empty": len(ev) == 0, "hostile_id": any(any(ch in e[0] for ch in ',"; \t\'\\') for e in ev), "pre1970": any(e[1] < 0 for e in ev),
             "with_region": reg is not None, "catalog_id": catalog_id is not None}
     tmp = scratch_dir("c14-")
     ctx.count(4)
